@@ -280,18 +280,32 @@ def lex_tokens(text):
     return toks
 
 
-def run_reader(mods, fmt, path, enc, params, atoms=None):
+def run_reader(mods, fmt, path, enc, params, atoms=None, collect=False):
+    """collect: the consumer keeps every yielded tree and looks at them only after the reader has finished
+    (list(reader), what --split does); otherwise each tree is observed when it is yielded (streaming).  A
+    yielded tree is the reader's answer for its sentence in both cases."""
     ti = mods['treeinput']
     events = []
+    kept = []
     out, err = io.StringIO(), io.StringIO()
+
+    def observe(tree):
+        events.append({'a': 'yield', 'g': treeio.Dumper(treeio.IDENT, all_chars=True).dump(tree)})
     with contextlib.redirect_stdout(out), contextlib.redirect_stderr(err):
+        last = None
         try:
             gen = getattr(ti, fmt)(path, enc, **params)
             for tree in gen:
-                events.append({'a': 'yield', 'g': treeio.Dumper(treeio.IDENT, all_chars=True).dump(tree)})
-            events.append({'a': 'eof'})
+                if collect:
+                    kept.append(tree)
+                else:
+                    observe(tree)
+            last = {'a': 'eof'}
         except Exception as ex:
-            events.append({'a': 'error', 'exc': type(ex).__name__, 'msg': str(ex)[:80]})
+            last = {'a': 'error', 'exc': type(ex).__name__, 'msg': str(ex)[:80]}
+        for tree in kept:
+            observe(tree)
+        events.append(last)
     printed = len(out.getvalue().strip().splitlines()) + len(err.getvalue().strip().splitlines())
     for e in events:
         if e['a'] == 'eof':
@@ -383,12 +397,13 @@ def record_corpus_case(cid, Ts, fmt, opts, sep, mods, seed, origin='tlc'):
         data = text.encode(enc)
         with (gzip.open(path, 'wb') if gz else open(path, 'wb')) as f:
             f.write(data)
-        events = run_reader(mods, fmt, path, enc, reader_params(opts, sep, firstid))
+        events = run_reader(mods, fmt, path, enc, reader_params(opts, sep, firstid), collect=seed % 2 == 1)
     finally:
         shutil.rmtree(tmp, ignore_errors=True)
     return {'id': cid, 'origin': origin, 'kind': 'corpus', 'fmt': fmt, 'opts': sorted(opts), 'sep': [sep],
             'four': 'T' if four else 'F', 'toks': [], 'firstid': firstid, 'trees': Ts, 'sids': sids,
-            'expsids': expsids, 'input': inputs, 'events': events, 'enc': enc, 'gz': gz, 'text': text[:300]}
+            'expsids': expsids, 'input': inputs, 'events': events, 'enc': enc, 'gz': gz, 'text': text[:300],
+            'consume': 'collect' if seed % 2 == 1 else 'stream'}
 
 
 def _with_root_label(T, lab):
